@@ -77,24 +77,48 @@ Definition check_nogroup (exact cm : bool) (raw : raw_t) (query : list (Z * Z))
   && cmp exact q_gen (interp_genpos rows query)
   && fl_eqb (interp_genpos_f (to_frows cm raw) query) q_gen_f.
 
-(** remove_discrepancies: the reduced map, interpolation with the spline the object still holds (built from the old rows),
-    and interpolation after an explicit build_spline() *)
+(** remove_discrepancies (select(mask)) and the same reduction through remove(indices): the reduced map, interpolation
+    right afterwards (the spline has been rebuilt from the remaining markers) and after an explicit build_spline().
+    The knot gaps of the reduced map need not be powers of two, so positions are compared within [Qclose]. *)
 Definition check_rmdisc (cm : bool) (raw : raw_t) (query : list (Z * Z))
-    (impl : list Z * list Z * list ext * list (list Z) * (list Z * list Z * list Z * list Z)) (isc : bool)
-    (stale rebuilt : list ext) : bool :=
+    (impl : list Z * list Z * list ext * list (list Z) * (list Z * list Z * list Z * list Z)) (isc warned : bool)
+    (direct rebuilt : list ext) : bool :=
   let '(chr, phy, gen, pay, meta) := impl in
   let rows := gm_rows (to_rows cm raw) in
   let rows' := rd_rows rows in
   zl_eqb (map r_chr rows') chr && zl_eqb (map r_phy rows') phy && extl_eqb (fin_gens rows') gen && zll_eqb (map r_pay rows') pay
-  && meta_eqb (group_meta (map r_chr rows')) meta && Bool.eqb (is_congruent rows') isc
-  && extl_eqb stale (interp_genpos rows query) && extl_close rebuilt (interp_genpos rows' query).
+  && meta_eqb (group_meta (map r_chr rows')) meta && Bool.eqb (is_congruent rows') isc && Bool.eqb (negb (is_congruent rows')) warned
+  && extl_close direct (rd_interp_genpos rows query) && extl_close rebuilt (rd_interp_genpos rows query)
+  && extl_eqb (rd_interp_genpos rows (own_pairs rows')) (fin_gens rows').
+
+(** grouping metadata of a map against the model's [option]: [None] = the map is not grouped (all four arrays absent) *)
+Definition optmeta_eqb (m : option meta_t) (grouped : bool) (meta : meta_t) : bool :=
+  match m with
+  | None => negb grouped && meta_eqb ([], [], [], []) meta
+  | Some m' => grouped && meta_eqb m' meta
+  end.
 
 Definition check_igmap (exact cm : bool) (raw : raw_t) (query : list (Z * Z)) (pay : list (list Z))
-    (impl : list Z * list Z * list ext * (list Z * list Z * list Z * list Z)) (pay_impl : list (list Z)) (keys : list Z) : bool :=
+    (impl : list Z * list Z * list ext * (list Z * list Z * list Z * list Z)) (grouped : bool) (pay_impl : list (list Z)) (keys : list Z) : bool :=
   let '(chr, phy, gen, meta) := impl in
   let '(q, g, m) := interp_gmap (to_rows cm raw) query in
-  pairs_eqb q (combine chr phy) && (length chr =? length phy)%nat && cmp exact gen g && meta_eqb m meta && zll_eqb pay pay_impl
-  && zl_eqb keys (let '(names, _, _, _) := m in names).
+  pairs_eqb q (combine chr phy) && (length chr =? length phy)%nat && cmp exact gen g && optmeta_eqb m grouped meta && zll_eqb pay pay_impl
+  && zl_eqb keys (let '(names, _, _, _) := gm_meta (to_rows cm raw) in names).
+
+(** the map returned by interp_gmap used as a genetic map: it interpolates like its source ([re]); its first use sorts and
+    groups it ([after]: markers, positions, grouping metadata, is_grouped()) *)
+Definition check_igmap_reuse (exact cm : bool) (raw : raw_t) (query : list (Z * Z))
+    (before : list Z * list Z * list ext * (list Z * list Z * list Z * list Z)) (grouped_before : bool)
+    (re : list ext)
+    (after : list Z * list Z * list ext * (list Z * list Z * list Z * list Z)) (grouped_after : bool) : bool :=
+  let '(chr, phy, gen, meta) := before in
+  let '(chr', phy', gen', meta') := after in
+  let '(q, g, m) := interp_gmap (to_rows cm raw) query in
+  pairs_eqb q (combine chr phy) && (length chr =? length phy)%nat && cmp exact gen g && optmeta_eqb m grouped_before meta
+  && cmp exact re g
+  && pairs_eqb (igmap_markers q) (combine chr' phy') && (length chr' =? length phy')%nat
+  && cmp exact gen' (interp_genpos (gm_rows (to_rows cm raw)) (igmap_markers q))
+  && optmeta_eqb (Some (igmap_group q)) grouped_after meta'.
 
 Definition check_gdist_g (exact cm : bool) (raw : raw_t) (ast asp rst rsp cst csp : option Z)
     (g1 : list ext) (g1f : list float) (g2 : list (list ext)) (g2f : list (list float)) : bool :=
